@@ -156,12 +156,13 @@ def _ann(a):
     return ast.unparse(a) if a is not None else "?"
 
 
-def rows():
+def rows(files=None):
     """all methods of the @extend_type classes of num.py / bool.py and the module-level builtins of num.py:
-    list of dict(type, name, params, ret, impl), sorted by (type, name)"""
+    list of dict(type, name, params, ret, impl), sorted by (type, name).  `files` = explicit (num.py, bool.py) paths
+    (used to read the *installed* 1.0.4 table for the emulator validation of IntSem); default: the working tree."""
     out = []
-    for rel in (NUM, BOOL):
-        tree = ast.parse(_read(rel))
+    for i, rel in enumerate((NUM, BOOL)):
+        tree = ast.parse(open(files[i]).read() if files else _read(rel))
         for node in tree.body:
             if isinstance(node, ast.ClassDef) and any(
                 isinstance(d, ast.Call) and isinstance(d.func, ast.Name) and d.func.id == "extend_type" for d in node.decorator_list
